@@ -60,6 +60,25 @@ def engIE (a : List String) : String :=
     match parseElemsIE elems, k.toNat? with
     | some es, some k => if k ≤ es.length then s!"buf {recordLength es} {hexOrDash (recordBuf es)}" else "bad-op"
     | _, _ => "bad-op"
+  | ["mut", ietok, _v1, v2] =>
+    -- an element made with v1 whose value is then replaced (typed setter) or reset: it encodes as a fresh
+    -- element with the final value does; ResetValue gives the zero value of the type (0, false, no bytes)
+    match parseIE ietok with
+    | some ie =>
+      let final : Option Value :=
+        if v2 == "reset" then
+          some (match ie.ty with
+            | .boolean => .bool false
+            | .octetArray | .macAddress | .string | .ipv4Address | .ipv6Address => .bytes []
+            | _ => .num 0)
+        else parseValue v2
+      match final with
+      | some v =>
+        match encodeElem ie v with
+        | some bs => s!"ok {hexOrDash bs} {elemLength ie v}"
+        | none => s!"err {elemLength ie v}"
+      | none => "bad-op"
+    | none => "bad-op"
   | ["enc", ietok, vtok] =>
     match parseIE ietok, parseValue vtok with
     | some ie, some v =>
@@ -108,6 +127,20 @@ def chkIE (a : List String) : String :=
         | _ => .other
       if C15.holdsRT ie v tl o then "holds" else "fails"
     | _, _, _ => "bad-op"
+  | ["mut", ietok, v1, v2] =>
+    -- judged against the final value: reported length = bytes written = the encoding of that value
+    match obs with
+    | ["ok", hex, len] =>
+      (match (if hex == "-" then some [] else fromHex hex), len.toNat?, (engIE ["mut", ietok, v1, v2]).splitOn " " with
+       | some bs, some l, ["ok", mhex, mlen] =>
+         if bs.length != l then "fails length-disagrees"
+         else if mhex != hex || mlen != len then "fails stale-value"
+         else "holds"
+       | some _, some _, _ => "na"   -- the final value is ill-typed for the element (a reset MAC / address): outside C15, see C09 / D5
+       | _, _, _ => "fails unparsable-observation")
+    | "err" :: _ => if ((engIE ["mut", ietok, v1, v2]).splitOn " ").head? == some "err" then "holds" else "fails refused-final-value"
+    | ["bad-op"] => "na"
+    | _ => s!"fails {obs.headD "no-answer"}"
   | "recbuf" :: elems :: _ | "recbufx" :: elems :: _ =>
     match parseElemsIE elems with
     | some es =>
